@@ -231,4 +231,11 @@ def body(I, case):
         op = case['op']
         direct = va >= vb if op == '>=' else va <= vb if op == '<=' else va > vb if op == '>' else va < vb if op == '<' else Eq(va, vb)
         I.prove('ineq-meaning', Iff(holds, direct))
+        # building the comparison must not change what its operands mean (they may be used again)
+        for nm, o, v in (('lhs', a, va), ('rhs', b, vb)):
+            if isinstance(o, PB.Expr):
+                I.prove(f'ineq-operand-unchanged:{nm}', And(Eq(value_of(o, env), v), normal_form(o)))
+            elif isinstance(o, PB.Term):
+                tv = Ite(env[0] if o.L.v == 'x' else env[1], 1, 0) if o.L.s else Ite(env[0] if o.L.v == 'x' else env[1], 0, 1)
+                I.prove(f'ineq-operand-unchanged:{nm}', Eq(o.c * tv, v))
         I.prove('ineq-normal-form', And(normal_form(q.lhs), q.lhs.c == 0, q.op in ('>=', '>', '=')))
